@@ -767,6 +767,31 @@ func registerStubs(w *World) {
 		}
 		return in.appendOp(a[0].(SliceV), SliceV{Arr: &ArrayV{Elems: vals}, Len: len(vals), Cap: len(vals)}, types.NewSlice(types.Typ[types.Uint8]))
 	}
+	// unicode classes with a closed form: control characters (Cc) are exactly
+	// U+0000..U+001F and U+007F..U+009F; the ASCII / Latin-1 part of the others
+	// is decided, larger symbolic code points are not modelled.
+	S["unicode.IsControl"] = func(in *Interp, fn *ssa.Function, a []Value) Value {
+		r := a[0].(*Term)
+		return Or(And(Ge(r, IntC(0)), Lt(r, IntC(0x20))), And(Ge(r, IntC(0x7f)), Lt(r, IntC(0xa0))))
+	}
+	latin1 := func(name string, f func(rune) bool) {
+		S["unicode."+name] = func(in *Interp, fn *ssa.Function, a []Value) Value {
+			r := a[0].(*Term)
+			if v, ok := r.Int64Val(); ok {
+				return BoolC(f(rune(v)))
+			}
+			k, ok := in.concretize("unicode."+name, r, 0, 255)
+			if !ok {
+				in.unsupported("unicode." + name + " on a symbolic code point above U+00FF")
+			}
+			return BoolC(f(rune(k)))
+		}
+	}
+	latin1("IsDigit", unicode.IsDigit)
+	latin1("IsLetter", unicode.IsLetter)
+	latin1("IsUpper", unicode.IsUpper)
+	latin1("IsLower", unicode.IsLower)
+	latin1("IsPunct", unicode.IsPunct)
 	S["unicode/utf8.RuneLen"] = func(in *Interp, fn *ssa.Function, a []Value) Value {
 		return IntC(int64(len(in.encodeRune(a[0].(*Term)))))
 	}
